@@ -71,6 +71,12 @@ int ops_core(int n, char **a) {
         free(s);
         return 1;
     }
+    if (isop(op, "genfn") && n == 2) {
+        // the loop functions that c2lean translates by unrolling
+        H3Index h = pH(a[1]);
+        printf("ok %d %" PRIx64 " %" PRIx64 "\n", (int)_h3LeadingNonZeroDigit(h), _h3Rotate60ccw(h), _h3Rotate60cw(h));
+        return 1;
+    }
     if (isop(op, "ispent") && n == 2) { printf("ok %d\n", H3_EXPORT(isPentagon)(pH(a[1]))); return 1; }
     if (isop(op, "parent") && n == 3) {
         H3Index out = 0; H3Error e = H3_EXPORT(cellToParent)(pH(a[1]), (int)pI(a[2]), &out);
